@@ -26,10 +26,29 @@ RULE = ("cases are triples (entry point, target kind, failure point): entry poin
         "non-trivial = every triple; distinct by triple")
 
 
+def open_fds():
+    """file descriptors of this process that point at regular files (whoever opened them, by whatever route)"""
+    out = {}
+    try:
+        for fd in os.listdir("/proc/self/fd"):
+            try:
+                tgt = os.readlink("/proc/self/fd/" + fd)
+            except OSError:
+                continue
+            if tgt.startswith("/") and not tgt.startswith(("/dev/", "/proc/")):
+                out[int(fd)] = tgt
+    except OSError:
+        pass
+    return out
+
+
 class Tracker:
+    """tracks the handles the library opens: builtins.open and io.open are wrapped (pathlib.Path.open goes through
+    io.open), and the process's descriptor table is compared before and after, which catches every other route"""
     def __init__(self):
         self.handles = []
         self.real = builtins.open
+        self.real_io = io.open
 
     def __enter__(self):
         def tracked(*a, **k):
@@ -37,13 +56,21 @@ class Tracker:
             self.handles.append((a[0] if a else k.get("file"), f))
             return f
         builtins.open = tracked
+        io.open = tracked
+        self.before = open_fds()
         return self
 
     def __exit__(self, *exc):
         builtins.open = self.real
+        io.open = self.real_io
+        gc.collect()
+        self.after = open_fds()
 
     def leaked(self):
-        return [str(n) for n, f in self.handles if not f.closed]
+        named = [str(n) for n, f in self.handles if not f.closed]
+        extra = [t for fd, t in self.after.items() if self.before.get(fd) != t and t not in named
+                 and not t.endswith((".pyc", ".so"))]
+        return named + extra
 
 
 class Stream(io.StringIO):
